@@ -292,7 +292,11 @@ def updateBestHdr (s : State) (b : BlockAbs) : State × Res :=
 def processHeader (s : State) (b : BlockAbs) : State × Res :=
   match processHeaderCore s b with
   | (s1, .rej) => (s1, .rej)
-  | (s1, _) => updateBestHdr s1 b
+  | (s1, _) =>
+    -- a header whose node exists but is not on the best-header chain is checked again; this only
+    -- matters for a block that was stored with BFFastAdd although its header fails the context checks
+    if (lookup s.idx b.hash).isSome && !hdrContains s1 b.hash && !b.hdrOk then (s1, .rej)
+    else updateBestHdr s1 b
 
 /-- clean shutdown and restart on the same database (`initChainState`): only nodes whose data is
 stored are persisted (with their statuses), the orphan pool is gone, the best-header view restarts
